@@ -261,6 +261,66 @@ theorem reads_sub_started (f : Forest) : ∀ (o : Option Act) (c : Act), c ∈ r
       · simp [post, reads] at h; exact Or.inl h
     · exact Or.inr (Or.inr (ihr _ c h))
 
+/-- capture-off steps in any order: the cell never holds anything but the original stream -/
+theorem nc_only_inv (evs : List Ev) : ∀ (s : Fwd.St), ncOnly evs = true → s.cell = .orig →
+    (∀ a, s.live a = .orig ∨ s.live a = .null) → (∀ a, s.saved a = none ∨ s.saved a = some .orig) →
+    (run s evs).cell = .orig ∧ (run s evs).origLog = s.origLog ++ allWrites evs ∧ (run s evs).out = s.out := by
+  induction evs with
+  | nil => intro s _ hc _ _; simp [run, allWrites, hc]
+  | cons e evs ih =>
+    intro s hnc hc hl hs
+    rw [run_cons]
+    cases e with
+    | save a => simp [ncOnly] at hnc
+    | set a => simp [ncOnly] at hnc
+    | restore a => simp [ncOnly] at hnc
+    | read a => simp [ncOnly] at hnc
+    | getlive a on =>
+      have := ih (step s (.getlive a on)) (by simpa [ncOnly] using hnc) (by simp [step, hc])
+        (by
+          intro b
+          by_cases hb : b = a
+          · cases on <;> simp [step, upd, hb, hc]
+          · simpa [step, upd, hb] using hl b)
+        (by simpa [step] using hs)
+      simpa [step, allWrites] using this
+    | write a n =>
+      have E := emit_orig (a, n) s.cell s
+      have := ih (step s (.write a n)) (by simpa [ncOnly] using hnc) (by simp only [step]; rw [E.1]; exact hc)
+        (by simp only [step]; rw [E.2.1]; exact hl) (by simp only [step]; rw [E.2.2.1]; exact hs)
+      simp only [step] at this
+      rw [E.2.2.2.2.2, E.2.2.2.1] at this
+      simpa [step, allWrites, Fwd.reachesOrig, hc] using this
+    | swapNC a =>
+      by_cases hg : given (s.live a) = true
+      · have hla : s.live a = .orig := by
+          rcases hl a with h | h
+          · exact h
+          · rw [h] at hg; simp [given] at hg
+        have := ih (step s (.swapNC a)) (by simpa [ncOnly] using hnc) (by simp [step, hla, given])
+          (by simpa [step, hg] using hl)
+          (by
+            intro b
+            by_cases hb : b = a
+            · simp [step, hg, upd, hb, hc]
+            · simpa [step, hg, upd, hb] using hs b)
+        simpa [step, hg, allWrites] using this
+      · have := ih (step s (.swapNC a)) (by simpa [ncOnly] using hnc) (by simp [step, hg, hc])
+          (by simpa [step, hg] using hl) (by simpa [step, hg] using hs)
+        simpa [step, hg, allWrites] using this
+    | restoreNC a =>
+      by_cases hg : given (s.live a) = true
+      · rcases hs a with h | h
+        · have := ih (step s (.restoreNC a)) (by simpa [ncOnly] using hnc) (by simp [step, hg, h, Fwd.restoreTo, hc])
+            (by simpa [step, hg, h, Fwd.restoreTo] using hl) (by simpa [step, hg, h, Fwd.restoreTo] using hs)
+          simpa [step, hg, h, Fwd.restoreTo, allWrites] using this
+        · have := ih (step s (.restoreNC a)) (by simpa [ncOnly] using hnc) (by simp [step, hg, h, Fwd.restoreTo])
+            (by simpa [step, hg, h, Fwd.restoreTo] using hl) (by simpa [step, hg, h, Fwd.restoreTo] using hs)
+          simpa [step, hg, h, Fwd.restoreTo, allWrites] using this
+      · have := ih (step s (.restoreNC a)) (by simpa [ncOnly] using hnc) (by simp [step, hg, hc])
+          (by simpa [step, hg] using hl) (by simpa [step, hg] using hs)
+        simpa [step, hg, allWrites] using this
+
 /-- the `Fwd` machine is the all-capture fragment of this one -/
 theorem step_ofFwd (s : Fwd.St) (e : Fwd.Ev) : step s (ofFwd e) = Fwd.step s e := by
   cases e <;> rfl
